@@ -346,6 +346,12 @@ async def fuzz_lines(part, r, backend, nlines):
                 except Exception:
                     pass
                 conns[state] = None
+            elif b'}\r\n' in body or b'}\n' in body:
+                # a literal with its data inline: when the announced length is not the length of what follows (a mutation, a deliberate mismatch) the bytes left over
+                # are commands of their own, and one that ends like an announcement swallows the beginning of the next line - which then has no answer of its
+                # own although nothing is wrong.  Such a connection is not reused.
+                await c.eof()
+                conns[state] = None
             elif state != 0 and (b'LOGOUT' in body.upper() or b'CLOSE' in body.upper() or b'SELECT' in body.upper() or b'EXAMINE' in body.upper() or b'AUTHENTICATE' in body.upper()):
                 await c.eof()
                 conns[state] = None
